@@ -1,4 +1,6 @@
 import TlsProofs.ResumeHist
+import TlsModel.ResumeGen
+import TlsProofs.Ticket
 /-
   C13 — resumption reproduces the original session's security, or falls back cleanly.
   Model: TlsModel/Resume.lean (mirrors tlsconnection.py / session.py / sessioncache.py /
@@ -490,4 +492,201 @@ example : (stepHs (run World.init [.newServer none, .hs exArgs, .close 0 ⟨true
 
 end Examples
 
+
+/-! ### tie by regeneration
+  `TlsModel/Gen/Resume.lean` is rewritten from the AST of the tree under check on every run
+  (translate/gen_resume.py): the guards of the resumption block, of `_ticket_to_session`, of the
+  TLS 1.3 PSK loop, the data flow through SessionTicketPayload, the places `resumable` is
+  assigned.  The theorems below interpret that generated description over the model's data and
+  prove it equal to the hand-written model for every input, or compare it with the shape the
+  hand model relies on; a change of the source that alters a guard, its order, its effect or the
+  data flow makes one of them fail. -/
+section Regenerated
+open Tls.Gen.Resume
+
+
+theorem gen_translator_clean :
+    translatorProblems = [] ∧
+    ([outerCond, ticketCallCond, echoSidCond, cacheCond, pskOuterCond].all Cond.known &&
+      checkGuards.all Guard.known && ticketToSessionGuards.all Guard.known &&
+      pskLoopEvents.all PskEvent.known) = true := by decide
+
+theorem gen_checks_eq_model (st : SrvSettings) (h : Hello) (s : Sess) :
+    evalChain (GCtx.base st h (some s)) checkGuards = checkSession st h s := by
+  simp only [checkGuards, evalChain, evalCond, evalAtom, effectDecision, GCtx.base, checkSession]
+  by_cases h1 : s.resumable = true <;> simp [h1]
+
+
+theorem gen_ticket_to_session_eq_model (env : Env) (st : SrvSettings) (now : Nat) (h : Hello) (t : Bytes) :
+    genTicketToSession env st now h t = ticketToSession env st now t := by
+  simp only [genTicketToSession, ticketToSessionGuards, ticketToSession, List.any, evalCond, evalAtom,
+    ticketNonEmpty]
+  cases hp : tryDecrypt12 env st.ticketKeys t with
+  | none => simp
+  | some p => by_cases he : t.isEmpty = true <;> by_cases hx : p.created + st.ticketLifetime < now <;> simp [he, hx]
+
+theorem gen_server_resume12_eq_model (env : Env) (lookup : Bytes → Option Sess) (now : Nat)
+    (st : SrvSettings) (h : Hello) :
+    genServerResume12 env lookup now st h = serverResume12 env lookup now st h := by
+  have htne : ticketNonEmpty h = true → h.ticket.isSome = true := by
+    unfold ticketNonEmpty; cases h.ticket <;> simp
+  have L1 : evalCond (GCtx.base st h none) outerCond =
+      ((!h.sessionId.isEmpty && st.hasCache) || ticketNonEmpty h) := by
+    simp only [outerCond, evalCond, evalAtom, GCtx.base]
+    cases hq : ticketNonEmpty h
+    · simp
+    · simp [htne hq]
+  have L2 : genSessionFromTicket env st now h = sessionFromTicket env st now h := by
+    simp only [genSessionFromTicket, ticketCallCond, echoSidCond, evalCond, evalAtom, GCtx.base, sessionFromTicket]
+    cases h.ticket with
+    | none => simp
+    | some t =>
+      simp only [Option.isSome_some, if_true, gen_ticket_to_session_eq_model]
+      congr 1
+      funext s
+      cases h.sessionId.isEmpty <;> simp
+  have L3 : ∀ s1 : Option Sess, evalCond (GCtx.base st h s1) cacheCond =
+      (s1.isNone && !ticketNonEmpty h && st.hasCache && !h.sessionId.isEmpty) := by
+    intro s1
+    simp only [cacheCond, evalCond, evalAtom, GCtx.base]
+    cases hq : ticketNonEmpty h
+    · cases s1 <;> cases h.ticket.isSome <;> simp
+    · cases s1 <;> simp [htne hq]
+  have L4 : ∀ s2 : Option Sess, evalChain (GCtx.base st h s2) checkGuards =
+      (match s2 with | none => Decision.full | some s => checkSession st h s) := by
+    intro s2
+    cases s2 with
+    | none => simp [checkGuards, evalChain, evalCond, evalAtom, effectDecision, GCtx.base]
+    | some s => exact gen_checks_eq_model st h s
+  have L5 : genFindSession env lookup now st h = findSession env lookup now st h := by
+    simp only [genFindSession, findSession, L2, L3]
+  simp only [genServerResume12, serverResume12, L1, L4, L5]
+  split
+  · split <;> simp_all
+  · rfl
+
+
+theorem gen_psk_outer_eq_model (env : Env) (st : SrvSettings) (now : Nat) (ver : Ver) (prf : Hash) (h : Hello) :
+    serverPsk13 env st now ver prf h =
+      if evalCond (GCtx.base st h none) pskOuterCond then selectPskFrom env st now ver prf (h.psk.getD []) 0
+      else .none := by
+  simp only [serverPsk13, pskOuterCond, evalCond, evalAtom, GCtx.base]
+  cases h.psk with
+  | none => simp
+  | some ids => simp
+
+theorem gen_psk_ticket_step_eq_model (env : Env) (st : SrvSettings) (now : Nat) (ver : Ver) (prf : Hash)
+    (h : Hello) (id : PskIdent) (rest : List PskIdent) (i : Nat)
+    (hext : st.pskConfigs.find? (fun c => c.identity == id.identity) = none) :
+    selectPskFrom env st now ver prf (id :: rest) i =
+      match genPskTicketStep env st now ver prf h id i with
+      | none => selectPskFrom env st now ver prf rest (i + 1)
+      | some r => r := by
+  rw [selectPskFrom]
+  simp only [hext, genPskTicketStep]
+  cases hd : tryDecrypt13 env st.ticketKeys id.identity with
+  | none => rfl
+  | some p =>
+    simp only [pskLoopEvents, pskGuardsAfterBranch, List.filterMap, List.any, evalCond, evalAtom]
+    by_cases h1 : ver = p.version <;> by_cases h2 : p.created + st.ticketLifetime < now <;>
+      by_cases h3 : prfOf env p.suite = prf <;> simp [h1, h2, h3] <;> split <;> rfl
+
+theorem gen_psk_selection_after_guards : selectionAfterGuards pskLoopEvents = true := by decide
+
+theorem gen_psk_resumed_flag_and_binder :
+    pskResumedFlag = "not external" ∧
+    binderArgs = ["clientHello", "self._pre_client_hello_handshake_hash", "selected_psk", "psk", "psk_hash",
+                  "external"] := by decide
+
+theorem gen_ticket_dataflow :
+    ticketCreateArgs = expectedTicketCreateArgs ∧ ticketToSessionArgs = expectedTicketToSessionArgs ∧
+    payloadWriteFields = expectedPayloadFields ∧ payloadParseFields = expectedPayloadFields ∧
+    inheritedFields.all fieldRoundTrips = true ∧
+    ticketKeyUsed = "settings.ticketKeys[0]" ∧ kdfUsesUserKey = true ∧
+    pendingEtmSource = "self._pendingWriteState.encryptThenMAC" ∧
+    tryDecryptShape = expectedTryDecryptShape := by decide
+
+theorem gen_resumed_session_is_the_stored_one :
+    resumeSessionValue = "session" ∧
+    resumeServerHello = ["version", "getRandomBytes(32)", "session.sessionID", "session.cipherSuite",
+                         "CertificateType.x509", "None", "None", "extensions=extensions"] ∧
+    resumeKeyArgs = ["session.cipherSuite", "session.masterSecret", "clientHello.random", "serverHello.random",
+                     "settings.cipherImplementations"] := by decide
+
+theorem gen_resumable_cleared_where_modelled :
+    resumableAssigned = expectedResumableAssigned ∧
+    shutdownTail = "if not resumable and self.session:\n    self.session.resumable = False" ∧
+    cacheGetTests = ["session.valid() -> return session | else raise KeyError()"] ∧
+    sessionValid = "self.resumable and (self.sessionID or self.tickets or self.tls_1_0_tickets)" ∧
+    sessionCreateDefaults.contains ("resumable", "True") = true := by decide
+
+
+end Regenerated
+
+
+/-- TLS 1.3, what exactly separates `resumed13_inherits_partial` from the property text: the full
+    equality of parameters holds as soon as the new handshake negotiates the ticket's suite and the
+    ClientHello repeats the ticket's server name.  The server enforces neither (RFC 8446 binds a PSK
+    to the PRF hash only, and the SNI is taken from every ClientHello anew); an honest tlslite client
+    guarantees the second (`Session servername doesn't match` ValueError), nothing guarantees the first. -/
+theorem resumed13_inherits_when_hello_repeats (env : Env) (st : SrvSettings) (now : Nat) (ver : Ver)
+    (nsuite : Nat) (h : Hello) (s : Sess) (hv : ver.1 = 3 ∧ ver.2 ≥ 4)
+    (_hr : serverResume13 env st now ver (prfOf env nsuite) h = .resume s)
+    (hsuite : nsuite = s.suite) (hsni : h.serverName = s.serverName)
+    (h13 : s.ems = true ∧ s.etm = false) :
+    resumedParams ver nsuite h s = s.params := by
+  simp only [resumedParams, hv, and_self, if_true, Sess.params, hsuite, hsni, h13.1, h13.2]
+
 end Tls.Resume
+
+/-! ### the ticket itself: SessionTicketPayload bytes and sealing (TlsModel/Ticket.lean) -/
+namespace Tls.Ticket
+
+/-- `SessionTicketPayload.parse(write(p)) = p` for every payload `write` can represent: what the
+    server seals into a ticket is exactly what it reads back (all versions 0/1/2 of the format) -/
+theorem ticket_payload_roundtrip (p : TicketPayload) (hw : p.WF) : parsePayload (writePayload p) = some p :=
+  parse_write p hw
+
+/-- wrong key or tampered ticket ⇒ decline: when the AEAD opens the ciphertext under none of the
+    CURRENT keys, `_tryDecrypt` yields nothing, whatever the bytes -/
+theorem tampered_or_wrong_key_ticket_declined (A : Aead) (keys : List Bytes) (t : Bytes)
+    (h : ∀ k ∈ keys, A.aopen (A.kdf (t.take 32) k) (t.drop 32) = none) : openTicket A keys t = none :=
+  openTicket_none A keys t h
+
+/-- reduction to the AEAD assumption: an accepted ticket is one the server sealed under a key
+    derived from a CURRENT ticket key and the ticket's nonce (`log` = everything it ever sealed), or
+    the AEAD opened a ciphertext never sealed under that key (a forgery) -/
+theorem accepted_ticket_is_sealed_or_forgery (A : Aead) (keys : List Bytes) (t : Bytes) (p : TicketPayload)
+    (log : List (Bytes × Bytes)) (h : openTicket A keys t = some p) :
+    (∃ k ∈ keys, (A.kdf (t.take 32) k, t.drop 32) ∈ log) ∨
+    (∃ k ∈ keys, ∃ m, A.aopen (A.kdf (t.take 32) k) (t.drop 32) = some m ∧
+        (A.kdf (t.take 32) k, t.drop 32) ∉ log) :=
+  accepted_ticket_sealed_or_forgery A keys t p log h
+
+/-- key rotation: a ticket sealed under ANY of the current keys (not only the first) is accepted
+    and gives back the sealed payload -/
+theorem rotated_key_ticket_accepted (A : Aead) (pre post : List Bytes) (k nonce : Bytes) (p : TicketPayload)
+    (hn : nonce.length = 32) (hw : p.WF)
+    (hcorrect : ∀ key m, A.aopen key (A.aseal key m) = some m)
+    (hpre : ∀ k' ∈ pre, A.aopen (A.kdf nonce k') (A.aseal (A.kdf nonce k) (writePayload p)) = none) :
+    openTicket A (pre ++ k :: post) (nonce ++ A.aseal (A.kdf nonce k) (writePayload p)) = some p :=
+  openTicket_sealed A pre post k nonce p hn hw hcorrect hpre
+
+/-- non-vacuity: a toy AEAD (tag = the derived key appended), three keys, a version-2 payload -/
+def toyAead : Aead :=
+  { kdf := fun n k => k ++ n.take 1,
+    aseal := fun key m => m ++ key,
+    aopen := fun key c => if c.drop (c.length - key.length) == key then some (c.take (c.length - key.length)) else none }
+
+def toyPayload : TicketPayload :=
+  create [1, 2, 3] 3 3 0x9c 1000 [7] (some [0, 0, 1, 9, 0, 0]) true false [104]
+
+example : toyPayload.version = 2 := by decide
+example : parsePayload (writePayload toyPayload) = some toyPayload := by decide
+example : openTicket toyAead [[5], [6], [7]] (List.replicate 32 1 ++ toyAead.aseal [6, 1] (writePayload toyPayload))
+    = some toyPayload := by decide
+example : openTicket toyAead [[5], [7]] (List.replicate 32 1 ++ toyAead.aseal [6, 1] (writePayload toyPayload))
+    = none := by decide
+example : parsePayload (writePayload toyPayload ++ [0]) = none := by decide
+
+end Tls.Ticket
